@@ -86,7 +86,8 @@ Theorem C09_reader :
 Proof. exact reader_returns. Qed.
 Print Assumptions C09_reader.
 
-(* copy adapter: all four exits (sink error, sink accepts nothing, no progress / read error, finished) *)
+(* copy adapter: all six exits (sink error / sink accepts nothing, each with or without a pending
+   source error; no progress; finished) *)
 Theorem C09_copy :
   forall temps, (forall c k, bal 0 (temps c k) = true) ->
   forall dbg params dict calls (x : copy_exit), Forall (good_op 0) (params ++ dict ++ calls) ->
@@ -173,12 +174,42 @@ Theorem C09_multi_slice_legacy_refuted :
 Proof. exact legacy_slice_refuted. Qed.
 Print Assumptions C09_multi_slice_legacy_refuted.
 
-(* outside the stated quantifier, recorded: a worker whose join fails *)
+(* outside the stated quantifier, recorded: a worker that cannot be joined (it panicked) takes its
+   result with it.  Since 176a6ae CompressMulti keeps stitching, so everything except that worker's
+   own chunk is returned; the chunk itself never is. *)
+Theorem C09_multi_join_failure :
+  forall temps, (forall c k, bal 0 (temps c k) = true) ->
+  forall dbg sh ts k, good_threads 0 ts ->
+    let l := multi_life_joinfail temps (current dbg) sh ts k in
+    faults l = [] /\ Permutation.Permutation (live l) (lost_chunk temps (current dbg) sh ts k).
+Proof. exact join_failure_loses_only_own_chunk. Qed.
+Print Assumptions C09_multi_join_failure.
+
 Theorem C09_multi_join_failure_refuted :
   ~ returned (multi_life_joinfail no_temps (current true) [] [tiny_thread; tiny_thread; tiny_thread] 1) /\
   returned (multi_life no_temps (current true) [] [tiny_thread; tiny_thread; tiny_thread] empty_ledger).
 Proof. exact join_failure_refuted. Qed.
 Print Assumptions C09_multi_join_failure_refuted.
+
+(* the two release-site facts read off the source since the follow-up round, and what the model
+   does without them: (1) the by-value precomputed hasher must be owned by the state before
+   set_custom_dictionary can return (jobs that ignore their dictionary: quality 0/1, empty prefix);
+   (2) a `?` inside the copy loop must come after the destroy call (sink fails while a source
+   error is pending) *)
+Theorem C09_dict_late_install_refuted :
+  let sh := [(U32, 8388608); (U16, 32768)] in
+  returned (multi_life no_temps (current true) sh [q1_thread; q1_thread] empty_ledger) /\
+  let l := multi_life no_temps (late_install (current true)) sh [q1_thread; q1_thread] empty_ledger in
+  length (live l) = 2%nat /\ count_faults is_dropped l = 2.
+Proof. exact late_install_refuted. Qed.
+Print Assumptions C09_dict_late_install_refuted.
+
+Theorem C09_copy_try_before_destroy_refuted :
+  returned (copy_life no_temps (current true) [] [] small_stream XWriteErrorReadPending) /\
+  ~ returned (copy_life no_temps (try_before_destroy (current true)) [] [] small_stream XWriteErrorReadPending) /\
+  returned (copy_life no_temps (try_before_destroy (current true)) [] [] small_stream XWriteError).
+Proof. exact try_before_destroy_refuted. Qed.
+Print Assumptions C09_copy_try_before_destroy_refuted.
 
 (* Non-vacuity: balanced temporaries and a good history that populates every long-lived field
    (ring buffer grown twice, storage grown twice, quality-1 buffers, large table) and is then
